@@ -99,7 +99,13 @@ struct pcf_value *pcf_add_value(struct pcf_type *type, int value, const char *la
 { g3_log(&L_addval, type, label, NULL, value, 0, 0); if (may_fail()) return NULL; return (struct pcf_value *) o_val[0]; }
 int task_create_pcf_types(struct pcf_type *pcftype, struct task_type *types)
 { g3_log(&L_tasktypes, pcftype, types, NULL, 0, 0, 0); return may_fail(); }
-int prf_add(struct prf *prf, long index, const char *name) { (void) name; g3_log(&L_prfadd, prf, NULL, NULL, index, 0, 0); return may_fail(); }
+/* the row NAME: the formatted text is dropped by the prelude's snprintf model, so what the name says is observed as the
+ * format and the integer argument of the formatting that filled the buffer handed to prf_add (recorded by g3_snprintf
+ * below): logged per call as y = the number formatted into the name, z = 1 iff the name is the buffer formatted last
+ * and the format is the row-label format "~CPU %4<PRIi64>" */
+static char *g_sf_dst; static int g_sf_rowfmt; static long g_sf_arg; static unsigned g_sf_n;
+int prf_add(struct prf *prf, long index, const char *name)
+{ g3_log(&L_prfadd, prf, NULL, NULL, index, g_sf_arg, name == g_sf_dst && g_sf_rowfmt); return may_fail(); }
 /* ---- parson: thread k's metadata has (or lacks) the key nosv.can_breakdown; its value is a boolean (1/0) or
  * something else (json_value_get_boolean then answers -1) ---- */
 static char o_meta[2][8], o_jval[2][8];
@@ -114,10 +120,19 @@ JSON_Value *json_object_dotget_value(const JSON_Object *object, const char *name
 	return g_has_key[k] ? (JSON_Value *) o_jval[k] : NULL;
 }
 int json_value_get_boolean(const JSON_Value *value) { return g_bool[((const void *) value == (const void *) o_jval[0]) ? 0 : 1]; }
-/* snprintf (row names): prelude model, truncation counted as a lower-layer failure */
-static inline int g3_snprintf(char *s, size_t n) { int r = verif_snprintf(s, n); if (n > 0 && (size_t) r >= n) g_lowfail++; return r; }
+/* snprintf (row names): prelude model, truncation counted as a lower-layer failure; RECORDING: destination, whether the
+ * format is the row-label format, and the (single, 64-bit integer) argument.  The only snprintf of the two breakdown.c
+ * files is the row label. (Trusted: "snprintf prints its arguments according to the format".) */
+_Static_assert(sizeof(PRIi64) == 3 && sizeof(long) == 8, "PRIi64 is \"li\" here (LP64): one 64-bit integer argument");
+#define ROWFMT(f) ((f)[0] == '~' && (f)[1] == 'C' && (f)[2] == 'P' && (f)[3] == 'U' && (f)[4] == ' ' && (f)[5] == '%' && (f)[6] == '4' && \
+	(f)[7] == PRIi64[0] && (f)[8] == PRIi64[1] && (f)[9] == '\0')           /* "~CPU %4" PRIi64, i.e. "~CPU %4li" */
+static inline int g3_snprintf(char *s, size_t n, const char *fmt, long arg)
+{
+	g_sf_dst = s; g_sf_rowfmt = ROWFMT(fmt); g_sf_arg = arg; g_sf_n++;
+	int r = verif_snprintf(s, n); if (n > 0 && (size_t) r >= n) g_lowfail++; return r;
+}
 #undef snprintf
-#define snprintf(s, n, ...) g3_snprintf((s), (n))
+#define snprintf(s, n, fmt, arg) g3_snprintf((s), (n), (fmt), (long) (arg))
 
 #ifdef G3_NANOS6
 #include "nanos6/breakdown.c"  /* the real /repo/src/emu/nanos6/breakdown.c */
@@ -183,6 +198,7 @@ static void reset_logs(void)
 	L_addpvt.n = L_sortinit.n = L_chaninit.n = L_bayreg.n = L_muxinit.n = L_muxin.n = L_muxdef.n = L_setin.n = L_getout.n = L_prvreg.n = 0;
 	L_addtype.n = L_addval.n = L_tasktypes.n = L_prfadd.n = L_getprv.n = L_getpcf.n = L_getprf.n = L_dotget.n = 0;
 	g_lowfail = 0; g_err = 0; g_addtype_null = 0; g_key_ok = 1;
+	g_sf_dst = NULL; g_sf_rowfmt = 0; g_sf_arg = 0; g_sf_n = 0;
 }
 #define BEMU (&ME.breakdown)
 
@@ -322,6 +338,14 @@ static int has_row(long row)
 		if (k < L_prfadd.n && L_prfadd.c[k].a == (const void *) PRFH && L_prfadd.c[k].x == row) c++;
 	return c;
 }
+/* the row is labelled (at least once) with a name formatted "~CPU %4li" from the number num */
+static int has_row_named(long row, long num)
+{
+	int c = 0;
+	for (int k = 0; k < NLOG; k++)
+		if (k < L_prfadd.n && L_prfadd.c[k].a == (const void *) PRFH && L_prfadd.c[k].x == row && L_prfadd.c[k].y == num && L_prfadd.c[k].z == 1) c++;
+	return c;
+}
 void h_breakdown_finish(void)
 {
 	static struct proc P0, P1;
@@ -385,6 +409,14 @@ void h_breakdown_finish(void)
 		VASSERT(L_prfadd.n == nrows && L_getprf.c[0].a == (const void *) PVT, "one row label per row of the breakdown trace");
 		for (long row = 0; row < 3; row++)
 			if (row < nrows) VASSERT(has_row(row) == 1, "row labelled exactly once");
+		/* WHICH label: an ARBITRARY row k of the n rows is named "~CPU %4li" with the number n - k (PINNED from the
+		 * code: the rows of the breakdown trace are numbered downwards, row 0 is "~CPU n" and the last row "~CPU 1":
+		 * the view stacks the sorted per-CPU states, the top row is the n-th).  Every row has its OWN number, all in
+		 * 1..n; in terms of the position counted from the last row: label number == (index from the end) + 1 */
+		long g_row = nondet_long();
+		__CPROVER_assume(g_row >= 0 && g_row < 3);
+		if (g_row < nrows) VASSERT(has_row_named(g_row, nrows - g_row) == 1, "row k is named ~CPU <nrows - k> (format and number pinned)");
+		VASSERT(g_sf_n == (unsigned) nrows, "one name is formatted per row");
 		REACH("labels written");
 		if (nss == 2 && nidle == 2 && np == 2 && nrows == 3) REACH("two subsystem labels, two idle labels, two processes, three rows");
 		if (nss == 0 && nidle == 0 && np == 0 && nrows == 0) REACH("nothing to label");
@@ -392,6 +424,9 @@ void h_breakdown_finish(void)
 		VASSERT(g_err > 0 && g_lowfail > 0, "refused only by a lower layer, diagnosed");
 		if (L_tasktypes.n == 2) REACH("second process refused");
 		if (L_prfadd.n == 1) REACH("first row label refused");
+		/* the labels written before a refusal are the right ones too */
+		for (long row = 0; row < 3; row++)
+			if (row < L_prfadd.n) VASSERT(IS(L_prfadd, row, PRFH, NULL, NULL, row, nrows - row, 1), "rows are labelled in order, each ~CPU <nrows - row>");
 	}
 }
 #endif
